@@ -1,4 +1,6 @@
 import CsVerif.Model.C07
+import CsVerif.Model.C07Gen
+import CsVerif.Model.PyUShow
 /-!
 Line-protocol driver for the C07 model (see tools/harness/c07.py for the encoding).
 
@@ -408,6 +410,206 @@ def routeP : P String := do
     | some .response => "response"
     | none => "none")
 
+/-! ### `g-*` streams: the definitions TRANSLATED from the source of `C2Http.get_transform_for_http` / `C2Http.__init__`
+(Gen/PyC2H.lean; external functions as in Model/C07Gen.lean)
+
+  groute CFG … <method> <uri>              the line of `route`: the translated method on an instance with the routing attributes
+                                           of CFG and on `HttpRequest(method, uri, {}, {}, b"")` → `get` | `submit` | `none`
+  grarg CFG … <V>                          the same on ANY Python value (notation of Model/PyUShow.lean; `I0[…]` an HttpRequest,
+                                           `I1[…]` an HttpResponse, `b…` raw bytes) → `get` | `submit` | `response` | `none` | `exc <Name>`
+  gctor CFG … KEY … GV <settings> <uris> <npub> <npriv|N> <sha256(aes_rand)|none>
+                                           the translated constructor call on the record of the reads of `bconfig`
+                                           → `ok <attributes of the instance but bconfig>` | `exc <Name>` -/
+
+def gclsOf (cid : Nat) : Option PyU.Cls :=
+  [Gen.PyC2U.HttpRequest, Gen.PyC2U.HttpResponse, Gen.PyC2U.C2Data, Gen.PyC2U.ClientC2Data, Gen.PyC2U.ServerC2Data,
+   Gen.PyC2T.HttpDataTransform, Gen.PyC2H.C2Http, Gen.PyC2H.BeaconKeys, C07Gen.RsaKeyCls, C07Gen.BConfigCls].find? (·.cid == cid)
+
+def gvTok (s : String) : Option PyU.V := PyU.vTok (fun _ => none) gclsOf s
+
+def showRoute : Py PyU.V → String
+  | .ok (.str s) => String.ofList (s.map Char.ofNat)
+  | .ok v => "?" ++ PyU.vShow v
+  | .error .valueError => "none"
+  | .error e => "exc " ++ e.name
+
+def routeSelf (cfg : HttpCfg) : PyU.V := C07Gen.encSelf cfg (PyU.lit "get") (PyU.lit "submit") (PyU.lit "response") {}
+
+def grouteP : P String := do
+  skipImP
+  let cfg ← cfgP
+  let m ← tok bytesTok
+  let u ← tok bytesTok
+  pure (showRoute (C07Gen.getTransformG (routeSelf cfg) (C04Gen.encReq ⟨m, u, [], [], []⟩)))
+
+def grargP : P String := do
+  skipImP
+  let cfg ← cfgP
+  let v ← tok gvTok
+  pure (showRoute (C07Gen.getTransformG (routeSelf cfg) v))
+
+def gctorP : P String := do
+  skipImP
+  let _cfg ← cfgP
+  let ks ← keyP
+  expect "GV"
+  let settings ← tok gvTok
+  let uris ← tok gvTok
+  let npub ← tok intTok
+  let npriv ← tok (optTok intTok)
+  let digest ← tok (optTok bytesTok)
+  let ob : Option Bytes → PyU.V := C04Gen.encOB
+  let priv : PyU.V := match ks.args.priv, npriv with
+    | some _, some n => C07Gen.encKey n
+    | _, _ => .none
+  let r := C07Gen.initG (fun _ => digest.getD []) (if ks.pubOk then some (C07Gen.encKey npub) else none)
+    (C07Gen.encBConfig settings uris (.bytes []) (.bool ks.trial)) (ob ks.args.aesKey) (ob ks.args.hmacKey) (ob ks.args.aesRand) priv
+    (.bool ks.args.verify)
+  pure (match r with
+    | .ok (.inst _ (_ :: vals)) => "ok " ++ PyU.vShowL vals
+    | .ok v => "?" ++ PyU.vShow v
+    | .error (.py e) => "exc " ++ e.name
+    | .error .assertion => "exc AssertionError")
+
+/-! ### `g-sess`: the sessions of `sess` decoded by the definition TRANSLATED from the source of `C2Http.iter_recover_http`
+
+`gsess …` takes the line of `sess` (and of the other session streams).  The instance `self` is a Python value threaded through the
+calls: built from the hand model's decoder object (`selfOf`: routing attributes of CFG, the three transform objects made by the
+translated `HttpDataTransform` constructor from the step lists of CFG, keys, cache), then updated by the translated generator.
+When the translated generator ends with an exception its answer is just that exception; the packets yielded before it and the state
+of the instance at that point are then taken from the hand model (`G!` marks a message where the two disagree about the exception).
+The client side (`Q`, `R`) is the hand model's, as in `sess`. -/
+
+def argV : C04.Arg → PyU.V
+  | .bytes b => .bytes b
+  | .int n => .int n
+
+def stepV : C04.Step → PyU.V
+  | .enc (.append a) => .tuple [PyU.lit "append", argV a]
+  | .enc (.prepend a) => .tuple [PyU.lit "prepend", argV a]
+  | .enc .base64 => .tuple [PyU.lit "base64", .bool true]
+  | .enc .base64url => .tuple [PyU.lit "base64url", .bool true]
+  | .enc .netbios => .tuple [PyU.lit "netbios", .bool true]
+  | .enc .netbiosu => .tuple [PyU.lit "netbiosu", .bool true]
+  | .enc .mask => .tuple [PyU.lit "mask", .bool true]
+  | .term .print => .tuple [PyU.lit "print", .bool true]
+  | .term (.header k) => .tuple [PyU.lit "header", .bytes k]
+  | .term .uriAppend => .tuple [PyU.lit "uri_append", .bool true]
+  | .term (.parameter k) => .tuple [PyU.lit "parameter", .bytes k]
+  | .static (.header k) => .tuple [PyU.lit "_header", .bytes k]
+  | .static (.hostheader k) => .tuple [PyU.lit "_hostheader", .bytes k]
+  | .static (.parameter k) => .tuple [PyU.lit "_parameter", .bytes k]
+  | .build (some .output) => .tuple [PyU.lit "BUILD", PyU.lit "output"]
+  | .build (some .id) => .tuple [PyU.lit "BUILD", PyU.lit "id"]
+  | .build (some .metadata) => .tuple [PyU.lit "BUILD", PyU.lit "metadata"]
+  | .build none => .tuple [PyU.lit "BUILD", PyU.lit "other"]
+  | .unknown => .tuple [PyU.lit "unknownstep", .bool true]
+
+def transformV (prog : List C04.Step) (reverse : Bool) (build : PyU.V) : PyU.V :=
+  match C04Gen.initG (.list (prog.map stepV)) (.bool reverse) build with
+  | .ok t => t
+  | .error _ => .none
+
+def keysV (k : Keys) : PyU.V := .inst Gen.PyC2H.BeaconKeys [C04Gen.encOB k.aesKey, C04Gen.encOB k.hmacKey, .bytes k.iv]
+
+/-- the `C2Http` instance of a decoder object of the hand model -/
+def selfOf (d : Decoder) : PyU.V :=
+  C07Gen.encSelf d.cfg (transformV d.cfg.getProg false .none) (transformV d.cfg.postProg false .none)
+    (transformV d.cfg.recoverProg true (PyU.lit "output"))
+    { aes_key := C04Gen.encOB d.keys.aesKey, hmac_key := C04Gen.encOB d.keys.hmacKey, verify_hmac := .bool d.verify,
+      priv := if d.hasPriv then C07Gen.encKey 1 else .none,
+      metadata_cache := .dict (d.cache.map fun p => .bytes p.1) (d.cache.map fun p => C06Gen.encMeta p.2),
+      beacon_keys := keysV d.keys }
+
+def vItem? (v : PyU.V) : Option Item :=
+  match C06Gen.decMeta? v with
+  | some m => some (.metadata m)
+  | none =>
+    match v with
+    | .inst c [.int a, .int b, .int k, .bytes d] =>
+      if c.cid == C07Gen.CallbackPacketCls.cid then some (.callback ⟨a.toNat, b.toNat, k.toNat, d⟩) else none
+    | .inst c [.int a, .int b, .int k, .int z, .bytes d] =>
+      if c.cid == C07Gen.TaskPacketCls.cid then some (.task ⟨a.toNat, b.toNat, k.toNat, z.toNat, d⟩) else none
+    | _ => none
+
+def optBytesV : PyU.V → Option (Option Bytes)
+  | .none => some none
+  | .bytes b => some (some b)
+  | _ => none
+
+/-- the `K …` state line read off the instance -/
+def showStateV (self : PyU.V) : String :=
+  match PyU.getAttr self "beacon_keys", PyU.getAttr self "metadata_cache" with
+  | .ok (.inst _ [ak, hk, .bytes iv]), .ok (.dict ks _) =>
+    match optBytesV ak, optBytesV hk with
+    | some a, some h =>
+      let blobs := ks.map fun k => match k with | .bytes b => " " ++ showBytes b | v => " ?" ++ PyU.vShow v
+      s!"K {showOB a} {showOB h} {showBytes iv} {ks.length}" ++ String.join blobs
+    | _, _ => "K ?keys"
+  | _, _ => "K ?self"
+
+structure GSt where
+  dec : Decoder
+  self : PyU.V
+  cl : Client
+  out : List String
+
+def gdecodeRaw (c : Crypto) (st : GSt) (w : Bytes) : GSt :=
+  let o := iterRecoverHttp c st.dec (.raw w)
+  match C07Gen.iterRecoverG c st.self (.bytes w) .none with
+  | .ok (.tuple [.list ys, self']) =>
+    match ys.mapM vItem? with
+    | some items =>
+      let txt := String.join (items.map fun it => " " ++ showItem it)
+      { st with dec := o.dec, self := self', out := st.out ++ [s!"D ok {items.length}{txt}"] }
+    | none => { st with dec := o.dec, self := self', out := st.out ++ ["D ?items " ++ PyU.vShowL ys] }
+  | .ok v => { st with dec := o.dec, out := st.out ++ ["D ?result " ++ PyU.vShow v] }
+  | .error e =>
+    let name := match e with | .py e => e.name | .assertion => "AssertionError"
+    -- the translated generator answers only the exception: items before it and the state are the hand model's
+    let agree := o.exc.map Exc.name == some name
+    { st with dec := o.dec, self := selfOf o.dec, out := st.out ++ [(if agree then "D " else s!"G! {name} D ") ++ showOut o] }
+
+def grunEv (c : Crypto) (st : GSt) : Ev → GSt
+  | .get rr rand wq rh rb wr =>
+    let q := getTaskRequest c st.cl rr rand
+    let st := match q with
+      | .ok (r, cl') => { st with cl := cl', out := st.out ++ ["Q ok " ++ showReq r] }
+      | .error e => { st with out := st.out ++ ["Q exc " ++ e.name] }
+    let st := gdecodeRaw c st wq
+    let st := gdecodeRaw c st wr
+    let res : X (Option Task) := match q with
+      | .error e => .error e
+      | .ok _ => getTaskResult c st.cl rh rb
+    { st with out := st.out ++ ["R " ++ showX (fun
+      | none => "none"
+      | some t => showTask t) res] }
+  | .post cbs rand wq wr =>
+    let q := callbackRequest c st.cl cbs rand
+    let st := match q with
+      | .ok (r, cl') => { st with cl := cl', out := st.out ++ ["Q ok " ++ showReq r] }
+      | .error e => { st with out := st.out ++ ["Q exc " ++ e.name] }
+    let st := gdecodeRaw c st wq
+    gdecodeRaw c st wr
+  | .msg w => gdecodeRaw c st w
+
+def gsessP : P String := do
+  skipImP
+  let cfg ← cfgP
+  let ks ← keyP
+  let cl ← clientP cfg
+  expect "EV"
+  let n ← tok natTok
+  let evs ← many n evP
+  expect "TB"
+  let tbl ← tableP
+  let c := oracleCrypto tbl
+  match mkDecoder c cfg ks.args ks.pubOk ks.trial with
+  | .error e => pure ("exc " ++ e.name)
+  | .ok dec =>
+    let st := evs.foldl (grunEv c) ⟨dec, selfOf dec, cl, []⟩
+    pure (" ".intercalate (["cap=T", "ext=T"] ++ st.out ++ [showStateV st.self]))
+
 def runP (p : P String) (ws : List String) : String :=
   match p ws with
   | some (s, []) => s
@@ -417,6 +619,10 @@ def step : List String → String
   | "sess" :: rest => runP sessP rest
   | "ctor" :: rest => runP ctorP rest
   | "route" :: rest => runP routeP rest
+  | "groute" :: rest => runP grouteP rest
+  | "grarg" :: rest => runP grargP rest
+  | "gctor" :: rest => runP gctorP rest
+  | "gsess" :: rest => runP gsessP rest
   | _ => "bad-op"
 
 end C07
